@@ -44,6 +44,58 @@ def oracle_units(chk, progs, backends, tag, proj=emit.KINDS_ALL, steps_fn=None, 
                        'bfs_depth': bfs_depth})
 
 
+def product_units(chk, progs, pairs, tag, bfs_depth=6, max_confs=40, timeout=60, variant_fn=None, opts=None):
+    """two configurations of the same program in one query (no oracle): equal logs, results, active configurations"""
+    for pname in progs:
+        for (ca, cb) in pairs:
+            # a configuration is (back-end, dict of program modifications)
+            def mk(cfg):
+                prog = catalog.CATALOG[pname]()
+                if cfg[0] == 2 or (variant_fn and False):
+                    pass
+                return prog
+            nosm = (ca[0] == 2 or cb[0] == 2) and any(m.internal for m in catalog.CATALOG[pname]().machines)
+            progs2 = []
+            for cfg in (ca, cb):
+                prog = catalog.CATALOG[pname]()
+                if nosm:
+                    for m in prog.machines: m.internal = []
+                if variant_fn: variant_fn(prog, cfg)
+                progs2.append(prog)
+            base = progs2[0]
+            steps = [('ev', e) for e in base.events]
+            confs, edges = model.bfs(base, [('start',)] + steps, max_depth=bfs_depth, max_confs=max_confs)
+            confs = [c for c in confs if c[0].started]
+            o = dict(opts or {}); o['defines'] = list(o.get('defines', [])) + ['VF_NORMALIZE_IDS 1']
+            parts = []
+            for k, (cfg, prog) in enumerate(zip((ca, cb), progs2)):
+                parts.append(('_' + 'ab'[k], emit.emit_cpp(prog, o), ['-DVF_BE=%d' % cfg[0]] + list(cfg[2] if len(cfg) > 2 else []), 'ab'[k] + '_'))
+            h, index = emit.emit_product_harness(base, confs, steps, tag)
+            name = '%s_%s%s_%s_vs_%s' % (tag, pname, '_nosmint' if nosm else '', cfg_name(ca), cfg_name(cb))
+            u = runner.Unit(name, 'P', None, h, index, parts=parts, rt_files=[runner.VERIF + '/harness/vf_product.c'])
+            u.nevents = len(base.events)
+            u.spec = {'prog': pname, 'tag': tag, 'pair': [cfg_name(ca), cfg_name(cb)]}
+            chk.add_unit(u)
+            for hi in range(len(index)):
+                chk.jobs.append(Job(u, hi, unwind=6, timeout=timeout, extra=('--unwindset', 'vf_compare_logs.0:33,vf_compare_cfg.0:11')))
+            chk.bounds.setdefault('programs', {})[name] = {'configurations': len(confs), 'events': len(base.events)}
+    chk.bounds.update({'symbolic_steps_per_query': 1, 'payload_bits': 32, 'unwind': 6, 'queue_capacity': 4, 'bfs_depth': bfs_depth})
+
+
+def cfg_name(cfg):
+    n = {0: 'back', 1: 'back_ct', 2: 'back11', 3: 'mp11', 4: 'mp11fpa', 5: 'mp11ct'}[cfg[0]]
+    if len(cfg) > 1 and cfg[1]: n += '_' + cfg[1]
+    return n
+
+
+def C13(tier, seed):
+    chk = Check('C13', tier, seed)
+    pairs = [((0, ''), (3, '')), ((3, ''), (4, '')), ((0, ''), (2, ''))]
+    progs = ['F1', 'R2', 'H2', 'X', 'A'] + (['R3', 'H3', 'HIa', 'T'] if tier == 'thorough' else [])
+    product_units(chk, progs, pairs, 'C13')
+    return chk
+
+
 def C01(tier, seed):
     chk = Check('C01', tier, seed)
     flat = [0, 2, 3, 4]; hier = [0, 2, 3, 4]
@@ -163,4 +215,4 @@ def C03(tier, seed):
     return chk
 
 
-PROPS = {f.__name__: f for f in (C01, C02, C03, C06, C07, C08, C09, C10, C11, C17)}
+PROPS = {f.__name__: f for f in (C01, C02, C03, C06, C07, C08, C09, C10, C11, C13, C17)}
